@@ -17,6 +17,10 @@ replay-memory / rate-limit answer) is derived from the history of public calls, 
 Innate-gate histories over check / add_pattern / add_validator / reset_inflammation / clock advance on
 two gates: an input the rule set blocks is blocked after every history, the second gate never sees
 the first one's rules. A grown class-level signature table (gates sharing their store) is reported.
+The gates are driven and observed through their public API only. Where the explorers need the whole internal
+state (copying a state, canonical key) they walk vars(obj) generically (section 6b): no private attribute, method
+or helper of the library is named anywhere; volatile fields (audit trail, call counters) are located by behaviour
+on a probe object. The virtual clock covers module-level, aliased and function-level imports of time / datetime.
 
 Reference matcher: an independent backtracking matcher over the sre parse tree with its own
 case folding (cross-checked against `re.compile(p, re.I).search` on every evaluated pair; a
@@ -27,7 +31,6 @@ from __future__ import annotations
 
 import contextlib
 import copy
-import dataclasses
 import re
 import sys
 from re import _parser as sre
@@ -47,7 +50,51 @@ from operon_ai.surveillance.innate import (
     TLRPattern,
 )
 
-vclock.install_global([membrane_mod, innate_mod])
+def install_clock(modules):
+    """Virtual clock for the library modules, wherever and under whatever name they import time / datetime:
+    (1) vclock.install_global: module-level `datetime` class / `time` module under their usual names;
+    (2) every other module global that IS the real time module, the real datetime module / class or one of
+        time.time / monotonic / perf_counter / sleep (aliased imports, `from time import time`);
+    (3) function-level `import time` / `from datetime import datetime` executed by code of these modules
+        (an `__import__` wrapper that looks at the importing module's globals; imports of everybody else
+        are untouched). Names that do not exist are simply not rebound - nothing here requires a particular
+        import style."""
+    import builtins
+    import datetime as real_dt
+    import time as real_time
+    import types
+
+    sw = vclock.install_global(modules)
+    ftime = sw.fake_time()
+    fdt_mod = types.ModuleType("datetime")
+    fdt_mod.__dict__.update({k: v for k, v in vars(real_dt).items() if not k.startswith("__")})
+    # reuse the class vclock bound (if it bound one) so that there is one virtual datetime class per process
+    bound = [vars(m).get("datetime") for m in modules]
+    fdt_cls = next((b for b in bound if isinstance(b, type) and issubclass(b, real_dt.datetime)
+                    and b is not real_dt.datetime), None) or sw.fake_datetime()
+    fdt_mod.datetime = fdt_cls
+    swap = {id(real_time): ftime, id(real_dt): fdt_mod, id(real_dt.datetime): fdt_cls}
+    for fn in ("time", "monotonic", "perf_counter", "sleep"):
+        swap[id(getattr(real_time, fn))] = getattr(ftime, fn)
+    names = set()
+    for m in modules:
+        names.add(m.__name__)
+        for k, v in list(vars(m).items()):
+            if not k.startswith("__") and id(v) in swap:
+                setattr(m, k, swap[id(v)])
+    real_import = builtins.__import__
+
+    def virtual_import(name, globals=None, locals=None, fromlist=(), level=0):  # noqa: A002
+        if level == 0 and name in ("time", "datetime") and globals is not None \
+                and globals.get("__name__") in names:
+            return ftime if name == "time" else fdt_mod
+        return real_import(name, globals, locals, fromlist, level)
+
+    builtins.__import__ = virtual_import
+    return sw
+
+
+install_clock([membrane_mod, innate_mod])
 
 # ======================================================================================
 # 1. Reference: case folding restricted to characters with single-character round-tripping maps
@@ -1261,6 +1308,337 @@ def run_d(ctx):
 
 
 # ======================================================================================
+# 6b. Generic (name-independent) handling of the gates' internal state: clone, fingerprint, volatile fields
+# ======================================================================================
+# The explorers need the WHOLE state of a gate (to copy a state and to build the canonical key), but have no business
+# knowing how the implementation names or arranges it. Everything below walks `vars(obj)` recursively and decides by
+# type / value behaviour only:
+#   * locks and other synchronisation objects: by type (a clone gets fresh ones, the key ignores them);
+#   * objects of the class-level tables (built-in signatures every gate of the process shares): shared by clones as
+#     they are shared by freshly built gates, one token in the key;
+#   * instants (datetime values, epoch floats): relative to the state's virtual clock - time remaining if in the
+#     future, age if younger than the horizon (rate window / inflammation decay of the configuration), else 'old';
+#     'old' entries of a sequence are dropped (expired entries of a sliding window);
+#   * volatile fields left out of the key are LOCATED BY BEHAVIOUR on a probe object (never by name): containers
+#     that the public clear_audit_log() empties, and int fields behind a private attribute that only ever grow over
+#     a probe history in which every other piece of state is set, expired and reset again (call counters).
+#     State behind public attributes always stays in the key.
+
+_TH = __import__("threading")
+_DT = __import__("datetime")
+_COLL = __import__("collections")
+_ENUM = __import__("enum")
+_TYPES = __import__("types")
+_LOCK_T, _RLOCK_T = type(_TH.Lock()), type(_TH.RLock())
+_SYNC_T = (_LOCK_T, _RLOCK_T, _TH.Event, _TH.Condition, _TH.Semaphore, _TH.Thread)
+_ATOM_T = (type(None), bool, int, float, complex, str, bytes, _ENUM.Enum, type, re.Pattern, _DT.date, _DT.time,
+           _DT.timedelta, _DT.tzinfo, _TYPES.FunctionType, _TYPES.BuiltinFunctionType, _TYPES.ModuleType, range)
+_FAST_ATOM_T = frozenset([type(None), bool, int, float, str])
+_SEQ_T = (list, tuple, _COLL.deque)
+
+
+def _class_table_objects(classes):
+    """objects held by container-valued class attributes (whatever they are called): process-wide objects that every
+    instance shares. -> {id: (object, token)}"""
+    out = {}
+    for cls in classes:
+        for attr, v in vars(cls).items():
+            if isinstance(v, dict):
+                v = list(v.values())
+            if isinstance(v, (list, tuple, set, frozenset)):
+                for o in v:
+                    if not isinstance(o, _ATOM_T) and id(o) not in out:
+                        out[id(o)] = (o, ("shared", len(out)))
+    return out
+
+
+_SHARED = _class_table_objects([Membrane, InnateImmunity])
+
+
+_KIND = {}
+
+
+def _kind_of(t):
+    """classification of a type, decided once per type (by type, never by name)"""
+    if issubclass(t, _ENUM.Enum):
+        k = "enum"
+    elif issubclass(t, _DT.datetime):
+        k = "instant"
+    elif issubclass(t, float):
+        k = "float"
+    elif issubclass(t, _ATOM_T):
+        k = "re" if issubclass(t, re.Pattern) else "td" if issubclass(t, _DT.timedelta) else \
+            "fn" if issubclass(t, (_TYPES.FunctionType, _TYPES.BuiltinFunctionType)) else "atom"
+    elif issubclass(t, _SYNC_T):
+        k = "sync"
+    elif issubclass(t, tuple):
+        k = "tuple" if t is tuple else "ntuple"
+    elif issubclass(t, (list, _COLL.deque)):
+        k = "list" if t is list else "seq"
+    elif issubclass(t, (set, frozenset)):
+        k = "set" if t is set else "fset" if issubclass(t, frozenset) else "xset"
+    elif issubclass(t, dict):
+        k = "dict" if t is dict else "xdict"
+    elif issubclass(t, _TYPES.MethodType):
+        k = "method"
+    else:
+        k = "obj"
+    _KIND[t] = k
+    return k
+
+
+def gclone(obj, memo):
+    """deep copy by value; aliasing inside one state is preserved through `memo`"""
+    t = type(obj)
+    if t in _FAST_ATOM_T:
+        return obj
+    k = _KIND.get(t) or _kind_of(t)
+    if k in ("atom", "enum", "instant", "float", "re", "td", "fn"):
+        return obj
+    i = id(obj)
+    if i in _SHARED:
+        return obj
+    got = memo.get(i)
+    if got is not None:
+        return got
+    if k == "list":
+        new = memo[i] = []
+        new.extend([x if type(x) in _FAST_ATOM_T or id(x) in _SHARED else gclone(x, memo) for x in obj])
+        return new
+    if k == "obj":
+        d = getattr(obj, "__dict__", None)
+        if isinstance(d, dict):
+            try:
+                new = t.__new__(t)
+            except TypeError:
+                new = None
+            if new is not None:
+                memo[i] = new
+                nd = new.__dict__
+                for a, v in d.items():
+                    nd[a] = v if type(v) in _FAST_ATOM_T else gclone(v, memo)
+                for c in t.__mro__:
+                    for a in getattr(c, "__slots__", ()):
+                        if a not in ("__dict__", "__weakref__") and hasattr(obj, a):
+                            object.__setattr__(new, a, gclone(getattr(obj, a), memo))
+                return new
+        if callable(obj):
+            return obj
+        new = memo[i] = copy.deepcopy(obj)
+        return new
+    if k == "dict":
+        new = memo[i] = {}
+        for a, v in obj.items():
+            new[gclone(a, memo)] = gclone(v, memo)
+        return new
+    if k == "set":
+        new = memo[i] = set()
+        new.update([gclone(x, memo) for x in obj])
+        return new
+    if k == "sync":
+        if t is _LOCK_T:
+            new = _TH.Lock()
+        elif t is _RLOCK_T:
+            new = _TH.RLock()
+        elif isinstance(obj, _TH.Thread):
+            new = obj
+        else:
+            new = t()
+        memo[i] = new
+        return new
+    if k == "tuple":
+        new = memo[i] = tuple([gclone(x, memo) for x in obj])
+        return new
+    if k == "fset":
+        new = memo[i] = t([gclone(x, memo) for x in obj])
+        return new
+    if k == "ntuple":          # namedtuple and friends
+        new = memo[i] = t(*[gclone(x, memo) for x in obj])
+        return new
+    if k in ("seq", "xset"):
+        new = memo[i] = copy.copy(obj)  # right subclass / maxlen
+        new.clear()
+        (new.update if k == "xset" else new.extend)([gclone(x, memo) for x in obj])
+        return new
+    if k == "xdict":
+        new = memo[i] = copy.copy(obj)  # right subclass / default_factory
+        new.clear()
+        for a, v in obj.items():
+            new[gclone(a, memo)] = gclone(v, memo)
+        return new
+    if k == "method":
+        new = memo[i] = _TYPES.MethodType(obj.__func__, gclone(obj.__self__, memo))
+        return new
+    raise AssertionError(k)
+
+
+_OLD = ("old",)
+_FP_PLAIN_T = frozenset([type(None), bool, int, str])    # fingerprint = the value itself
+_RUNS = {}
+
+
+def _shared_run(ids):
+    tok = _RUNS.get(ids)
+    if tok is None:
+        idx = [_SHARED[i][1][1] for i in ids]
+        tok = _RUNS[ids] = ("shared-run", len(idx), __import__("hashlib").blake2b(
+            repr(idx).encode(), digest_size=6).hexdigest())
+    return tok
+
+
+class Finger:
+    """canonical fingerprint of an object graph relative to a virtual clock"""
+
+    def __init__(self, clock, horizon, skip=frozenset()):
+        self.now = clock.now()
+        self.epoch = clock.time()
+        self.horizon = horizon
+        self.skip = skip
+
+    def instant(self, delta):
+        if delta > 0:
+            return ("in", delta)
+        if -delta < self.horizon:
+            return ("ago", 0.0 - delta)
+        return _OLD
+
+    def fp(self, obj, path=(), depth=0):
+        t = type(obj)
+        if t in _FP_PLAIN_T:
+            return obj
+        k = _KIND.get(t) or _kind_of(t)
+        if k == "enum":
+            return (t.__name__, obj.name)
+        if k == "float":
+            if obj > 1e9:                                  # seconds since the epoch
+                return self.instant(obj - self.epoch)
+            return obj if t is float else (t.__name__, repr(obj))
+        if k == "instant":
+            try:
+                return self.instant((obj.replace(tzinfo=None) - self.now).total_seconds())
+            except (TypeError, OverflowError):
+                return ("datetime", obj.isoformat())
+        sh = _SHARED.get(id(obj))
+        if sh is not None:
+            return sh[1]
+        if depth > 30:
+            return ("deep", t.__name__)
+        if k == "obj":
+            d = getattr(obj, "__dict__", None)
+            if isinstance(d, dict):
+                items = [t.__name__]
+                skip = self.skip
+                for a in sorted(d):
+                    sub = None if path is None else path + (a,)
+                    if sub is not None and sub in skip:
+                        continue
+                    v = d[a]
+                    items.append((a, v if type(v) in _FP_PLAIN_T else self.fp(v, sub, depth + 1)))
+                return tuple(items)
+            if callable(obj):
+                return ("fn", getattr(obj, "__qualname__", t.__name__))
+            return (t.__name__, repr(obj))
+        if k in ("list", "tuple", "seq", "ntuple"):
+            n = 0
+            head = ()
+            if obj and id(obj[0]) in _SHARED:
+                # leading run of class-table objects (the built-ins every gate starts with): one token
+                ids = tuple(map(id, obj))
+                while n < len(ids) and ids[n] in _SHARED:
+                    n += 1
+                head = (_shared_run(ids[:n]),)
+                obj = list(obj)[n:]
+            out = [x if type(x) in _FP_PLAIN_T else self.fp(x, None, depth + 1) for x in obj]
+            return head + tuple([x for x in out if x is not _OLD])
+        if k in ("set", "fset", "xset"):
+            return ("set",) + tuple(sorted([self.fp(x, None, depth + 1) for x in obj], key=repr))
+        if k in ("dict", "xdict"):
+            return ("map",) + tuple(sorted([(self.fp(a, None, depth + 1), self.fp(v, None, depth + 1))
+                                            for a, v in obj.items()], key=repr))
+        if k == "sync":
+            return ("sync",)
+        if k == "re":
+            return ("re", obj.pattern, obj.flags)
+        if k == "td":
+            return ("td", obj.total_seconds())
+        if k == "method":
+            return ("method", obj.__func__.__qualname__)
+        if k == "fn":
+            return ("fn", getattr(obj, "__qualname__", t.__name__))
+        return (t.__name__, repr(obj))
+
+
+def _is_private(path):
+    return any(k.startswith("_") for k in path)
+
+
+def _attr_leaves(obj, path=(), out=None, depth=0):
+    """attribute paths (through objects, not into containers) -> ('n', int value) | ('c', container size)"""
+    out = {} if out is None else out
+    d = getattr(obj, "__dict__", None)
+    if not isinstance(d, dict) or depth > 4:
+        return out
+    for k, v in d.items():
+        p = path + (k,)
+        if isinstance(v, _ENUM.Enum) or isinstance(v, bool) or id(v) in _SHARED:
+            continue
+        if isinstance(v, int):
+            out[p] = ("n", v)
+        elif isinstance(v, (list, dict, set, _COLL.deque)):
+            out[p] = ("c", len(v))
+        elif not isinstance(v, _ATOM_T) and not isinstance(v, _SYNC_T) and not callable(v):
+            _attr_leaves(v, p, out, depth + 1)
+    return out
+
+
+def volatile_paths(gate, calls, clear=None):
+    """Private attribute paths that carry no behaviour, found by running `calls` (callables taking the gate; a
+    history that sets, expires and resets every real piece of state) on a probe gate:
+      * int leaves that never decrease over the whole history and do grow: call counters;
+      * containers that are non-empty at the end and that the public `clear()` empties: the audit trail.
+    A probe that fails (changed tree) yields no exclusions - the key then merely merges less."""
+    try:
+        snaps = [_attr_leaves(gate)]
+        for c in calls:
+            try:
+                c(gate)
+            except Exception:  # noqa: BLE001 - judged by the engines, not here
+                pass
+            snaps.append(_attr_leaves(gate))
+        out = set()
+        for p, (kind, v0) in snaps[0].items():
+            if kind != "n" or not _is_private(p):
+                continue
+            seq = [s.get(p) for s in snaps]
+            if all(x is not None and x[0] == "n" for x in seq):
+                vals = [x[1] for x in seq]
+                if all(a <= b for a, b in zip(vals, vals[1:])) and vals[-1] > vals[0]:
+                    out.add(p)
+        if clear is not None:
+            before = snaps[-1]
+            clear(gate)
+            after = _attr_leaves(gate)
+            for p, x in before.items():
+                if x[0] == "c" and x[1] > 0 and after.get(p) == ("c", 0) and _is_private(p):
+                    out.add(p)
+        return frozenset(out)
+    except Exception:  # noqa: BLE001
+        return frozenset()
+
+
+def clone_clock(clock):
+    c = vclock.VClock()
+    c._now, c._t0 = clock._now, clock._t0      # mc.vclock's own fields (harness code, not the library's)
+    return c
+
+
+def selfcheck_failed(ctx, msg):
+    """a clone / key inconsistency may be caused by the tree under test: deferred, so that the engines still run and
+    the run ends with exit 2 only when no violation was found at all"""
+    ctx.defer_harness_error(msg)
+
+
+# ======================================================================================
 # 7. Engine A: membrane histories under a virtual clock
 # ======================================================================================
 
@@ -1271,7 +1649,6 @@ LEARNABLE = [("Xyzzy Token", False), (r"plu+gh\s+\d+", True), (r"plu+gh\s+\d+", 
 LEARN_OPS = [(0, "SUSPICIOUS"), (0, "CRITICAL"), (1, "SUSPICIOUS"), (1, "CRITICAL"), (2, "DANGEROUS"), (3, "SUSPICIOUS")]
 FORGET_OPS = [0, 1, 3]   # forget is by text: [2] has the text of [1]
 CUSTOM = [(r"frob(?:nitz|ozz)", True, "DANGEROUS")]
-_LOCKS = (type(__import__("threading").Lock()), type(__import__("threading").RLock()))
 
 
 def a_inputs():
@@ -1331,19 +1708,27 @@ def _refsig(p, r, lv):
     return _SIGCACHE[k]
 
 
-def clone_membrane(m):
-    t = Membrane(silent=True)
-    for k, v in m.__dict__.items():
-        if isinstance(v, _LOCKS):
-            continue
-        if isinstance(v, list):
-            v = list(v)
-        elif isinstance(v, dict):
-            v = dict(v)
-        elif isinstance(v, set):
-            v = set(v)
-        t.__dict__[k] = v
-    return t
+def _mem_probe_calls():
+    """history for locating the membrane's volatile fields: rate-limited filtering of benign and blocked inputs,
+    learn / forget, relaxing the threshold, letting the rate window expire"""
+    crit = next(p for p, r, lv in builtin_membrane() if lv == "CRITICAL" and not r)
+    p, r = LEARNABLE[0]
+
+    def flt(x):
+        return lambda m: m.filter(Signal(x))
+
+    return [flt("hello world"), flt("hello world"), lambda m: m.learn_threat(p, ThreatLevel.CRITICAL, "probe", is_regex=r),
+            flt(crit), flt(crit), flt(witnesses(p, r)[0]), lambda m: m.forget_threat(p),
+            lambda m: m.set_threshold(ThreatLevel.CRITICAL), lambda m: vclock.SWITCH.advance(61), flt("hello world"),
+            flt("hello again")]
+
+
+def membrane_volatile():
+    vclock.use(vclock.VClock())
+    return volatile_paths(Membrane(silent=True, rate_limit=4), _mem_probe_calls(), lambda m: m.clear_audit_log())
+
+
+RATE_WINDOW = 60   # seconds; the window of "at most rate_limit inputs are admitted per window"
 
 
 class AState:
@@ -1358,6 +1743,7 @@ class AModel:
         self.tier = tier
         self.wide = wide
         self.inputs = a_inputs()
+        self.volatile = membrane_volatile()
 
     def roots(self):
         r = [[None, "DANGEROUS", True], [0, "DANGEROUS", True], [1, "DANGEROUS", True], [2, "DANGEROUS", True],
@@ -1387,10 +1773,9 @@ class AModel:
     def clone(self, st):
         c = AState()
         c.root = st.root
-        c.clock = vclock.VClock()
-        c.clock._now = st.clock._now
-        c.clock._t0 = st.clock._t0
-        c.mem = {k: clone_membrane(m) for k, m in st.mem.items()}
+        c.clock = clone_clock(st.clock)
+        memo = {}
+        c.mem = {k: gclone(m, memo) for k, m in st.mem.items()}
         c.ref = {k: r.copy() for k, r in st.ref.items()}
         c.last = st.last
         return c
@@ -1412,19 +1797,12 @@ class AModel:
             o += [("advance", 1), ("advance", 59), ("advance", 61)]
         return o
 
-    def canon(self, st):
+    def canon(self, st, full=False):
+        """whole implementation state of both membranes (generic fingerprint minus the behaviour-located volatile
+        fields; full=True keeps those too) + the reference state"""
         now = st.clock.time()
-        impl = []
-        for k in ("A", "B"):
-            m = st.mem[k]
-            impl.append((
-                m.threshold.value,
-                tuple((s.pattern, s.is_regex, s.level.value) for s in m.signatures[len(Membrane.INNATE_SIGNATURES):]),
-                tuple(sorted((p, s.pattern, s.is_regex, s.level.value) for p, s in m._learned_patterns.items())),
-                tuple(sorted(m._blocked_hashes)),
-                tuple(sorted(now - t for t in m._request_times if now - t < 60)) if m.rate_limit is not None else (),
-            ))
-        return (tuple(impl), st.ref["A"].canon(now), st.ref["B"].canon(now))
+        f = Finger(st.clock, RATE_WINDOW, frozenset() if full else self.volatile)
+        return (f.fp(st.mem["A"]), f.fp(st.mem["B"]), st.ref["A"].canon(now), st.ref["B"].canon(now))
 
     def observe(self, st):
         return repr(st.last)
@@ -1538,32 +1916,45 @@ class AModel:
         return v
 
 
-def a_selfcheck(model):
-    """clone must be observationally equal to rebuilding by replay (a field added later cannot escape)"""
+def a_selfcheck(model, ctx):
+    """clone must equal the original and a rebuild by replay in EVERY field (full fingerprint, nothing excluded),
+    behave like them, and share no mutable object with the original"""
     hist = [("learn", "A", 1, "CRITICAL"), ("filter", "A", 4), ("add", "A", 0), ("advance", 59), ("filter", "A", 1),
             ("xfer", "A", "B"), ("filter", "B", 4), ("threshold", "A", "CRITICAL"), ("filter", "A", 5)]
-    for root in model.roots()[:3] + model.roots()[5:6]:
-        a = model.build(root)
-        for i, op in enumerate(hist):
-            if op[0] == "advance" and root[0] is None:
-                continue
-            model.step(a, op)
-            b = model.clone(a)
-            if model.canon(a) != model.canon(b):
-                raise common.HarnessError(f"clone differs from original after {hist[:i + 1]}")
-            for probe in (("filter", "A", 4), ("filter", "A", 0)):
-                c1, c2 = model.clone(a), model.clone(b)
-                if model.step(c1, probe) != model.step(c2, probe) or c1.last != c2.last:
-                    raise common.HarnessError("clone not observationally equal to original")
-        plain = set(a.mem["A"].__dict__) - {"_rate_lock"}
-        copied = set(model.clone(a).mem["A"].__dict__) - {"_rate_lock"}
-        if plain != copied:
-            raise common.HarnessError(f"clone misses fields {plain ^ copied}")
+    try:
+        for root in model.roots()[:3] + model.roots()[5:6]:
+            a = model.build(root)
+            done = []
+            for op in hist:
+                if op[0] == "advance" and root[0] is None:
+                    continue
+                model.step(a, op)
+                done.append(op)
+                b = model.clone(a)
+                if model.canon(a, full=True) != model.canon(b, full=True):
+                    return selfcheck_failed(ctx, f"membrane clone differs from original after {done}")
+                if model.canon(a, full=True) != model.canon(explore.rebuild(model, list(root), done), full=True):
+                    return selfcheck_failed(ctx, f"membrane state is not a function of the history {done} (replay "
+                                                 f"differs from the stepped original)")
+                before = model.canon(a, full=True)
+                for probe in (("filter", "A", 4), ("filter", "A", 0), ("learn", "A", 0, "CRITICAL")):
+                    c1, c2 = model.clone(a), model.clone(b)
+                    if model.step(c1, probe) != model.step(c2, probe) or c1.last != c2.last \
+                            or model.canon(c1, full=True) != model.canon(c2, full=True):
+                        return selfcheck_failed(ctx, "membrane clone not observationally equal to original")
+                if model.canon(a, full=True) != before:
+                    return selfcheck_failed(ctx, "stepping a membrane clone changed the original (shared mutable object)")
+            if set(vars(a.mem["A"])) != set(vars(model.clone(a).mem["A"])):
+                return selfcheck_failed(ctx, "membrane clone misses fields")
+    except common.HarnessError:
+        raise
+    except Exception as e:  # noqa: BLE001 - e.g. a changed tree that cannot be cloned: the engines judge it
+        selfcheck_failed(ctx, f"membrane clone self-check crashed: {type(e).__name__}: {e}")
 
 
 def run_a(ctx):
     model = AModel(ctx.tier)
-    a_selfcheck(model)
+    a_selfcheck(model, ctx)
     if ctx.tier == "quick":
         res = explore.explore(model, ctx, 5)
         res["base"] = None
@@ -1623,20 +2014,19 @@ def _irefsig(i):
     return _SIGCACHE[k]
 
 
-def clone_plain(obj):
-    """copy of a library object: fresh containers (one level; dataclass fields one level deeper)"""
-    t = copy.copy(obj)
-    for k, v in obj.__dict__.items():
-        if isinstance(v, list):
-            v = list(v)
-        elif isinstance(v, dict):
-            v = dict(v)
-        elif isinstance(v, set):
-            v = set(v)
-        elif dataclasses.is_dataclass(v) and not isinstance(v, type):
-            v = clone_plain(v)
-        t.__dict__[k] = v
-    return t
+def innate_volatile():
+    """probe history: benign / blocked checks, reset, letting the inflammation cool down"""
+    b = builtin_innate()
+    s5 = next(p for p, r, sv in b if sv == 5 and not r)
+    s3 = next(p for p, r, sv in b if sv == 3 and not r)
+
+    def chk(x):
+        return lambda g: g.check(x)
+
+    vclock.use(vclock.VClock())
+    return volatile_paths(InnateImmunity(silent=True),
+                          [chk("hello world"), chk(s5), chk(s3), chk("hello world"), lambda g: g.reset_inflammation(),
+                           chk(s3), lambda g: vclock.SWITCH.advance(16 * 60), chk("hello world"), chk("hello again")])
 
 
 class IState:
@@ -1647,6 +2037,7 @@ class IModel:
     def __init__(self, tier):
         self.tier = tier
         self.inputs = i_inputs()
+        self.volatile = innate_volatile()
 
     def roots(self):
         # [severity_threshold, inflammation_decay_minutes, option set]
@@ -1669,10 +2060,9 @@ class IModel:
     def clone(self, st):
         c = IState()
         c.root = st.root
-        c.clock = vclock.VClock()
-        c.clock._now = st.clock._now
-        c.clock._t0 = st.clock._t0
-        c.gate = {k: clone_plain(g) for k, g in st.gate.items()}
+        c.clock = clone_clock(st.clock)
+        memo = {}
+        c.gate = {k: gclone(g, memo) for k, g in st.gate.items()}
         c.ref = {k: r.copy() for k, r in st.ref.items()}
         c.last = st.last
         return c
@@ -1685,20 +2075,13 @@ class IModel:
         o += [("reset", "A"), ("advance", 60), ("advance", 16 * 60)]
         return o
 
-    def canon(self, st):
-        now = st.clock.now()
-        impl = []
-        for k in ("A", "B"):
-            g = st.gate[k]
-            s = g.inflammation_state
-            left = None if s.cooldown_until is None else max(0.0, (s.cooldown_until - now).total_seconds())
-            impl.append((
-                g.severity_threshold,
-                tuple((p.pattern, p.is_regex, p.severity) for p in g.patterns[len(InnateImmunity.DEFAULT_PATTERNS):]),
-                tuple((type(v).__name__, tuple(sorted(vars(v).items()))) for v in g.validators),
-                int(s.level), s.trigger_count, left, tuple(s.recent_alerts),
-            ))
-        return (tuple(impl), tuple((tuple(r.added), tuple(r.vadded)) for r in (st.ref["A"], st.ref["B"])))
+    def canon(self, st, full=False):
+        """whole implementation state of both gates (generic fingerprint minus the behaviour-located call counters);
+        stored instants: time remaining for deadlines in the future; this gate has no sliding window, so all instants
+        in the past are equivalent (horizon 0)"""
+        f = Finger(st.clock, 0, frozenset() if full else self.volatile)
+        return (f.fp(st.gate["A"]), f.fp(st.gate["B"]),
+                tuple((tuple(r.added), tuple(r.vadded)) for r in (st.ref["A"], st.ref["B"])))
 
     def observe(self, st):
         return repr(st.last)
@@ -1743,33 +2126,39 @@ class IModel:
         return []
 
 
-def i_selfcheck(model):
+def i_selfcheck(model, ctx):
     hist = [("check", "A", 1), ("addp", "A", 0), ("check", "A", 4), ("advance", 60), ("addv", "A", 0),
             ("check", "A", 7), ("check", "B", 1), ("reset", "A"), ("check", "A", 0)]
-    for root in model.roots()[:2]:
-        a = model.build(root)
-        for i, op in enumerate(hist):
-            model.step(a, op)
-            b = model.clone(a)
-            if model.canon(a) != model.canon(b):
-                raise common.HarnessError(f"innate clone differs from original after {hist[:i + 1]}")
-            r = explore.rebuild(model, list(root), hist[:i + 1])
-            if model.canon(a) != model.canon(r):
-                raise common.HarnessError(f"innate clone history differs from replay after {hist[:i + 1]}")
-            for probe in (("check", "A", 2), ("check", "A", 0), ("check", "B", 4)):
-                c1, c2 = model.clone(a), model.clone(b)
-                if model.step(c1, probe) != model.step(c2, probe) or c1.last != c2.last \
-                        or model.canon(c1) != model.canon(c2):
-                    raise common.HarnessError("innate clone not observationally equal to original")
-            if model.canon(a) != model.canon(b):
-                raise common.HarnessError("stepping a clone changed the original (shared mutable field)")
-        if set(vars(a.gate["A"])) != set(vars(model.clone(a).gate["A"])):
-            raise common.HarnessError("innate clone misses fields")
+    try:
+        for root in model.roots()[:2]:
+            a = model.build(root)
+            for i, op in enumerate(hist):
+                model.step(a, op)
+                b = model.clone(a)
+                if model.canon(a, full=True) != model.canon(b, full=True):
+                    return selfcheck_failed(ctx, f"innate clone differs from original after {hist[:i + 1]}")
+                r = explore.rebuild(model, list(root), hist[:i + 1])
+                if model.canon(a, full=True) != model.canon(r, full=True):
+                    return selfcheck_failed(ctx, f"innate clone history differs from replay after {hist[:i + 1]}")
+                before = model.canon(a, full=True)
+                for probe in (("check", "A", 2), ("check", "A", 0), ("check", "B", 4), ("addp", "A", 1)):
+                    c1, c2 = model.clone(a), model.clone(b)
+                    if model.step(c1, probe) != model.step(c2, probe) or c1.last != c2.last \
+                            or model.canon(c1, full=True) != model.canon(c2, full=True):
+                        return selfcheck_failed(ctx, "innate clone not observationally equal to original")
+                if model.canon(a, full=True) != before or model.canon(b, full=True) != before:
+                    return selfcheck_failed(ctx, "stepping a clone changed the original (shared mutable field)")
+            if set(vars(a.gate["A"])) != set(vars(model.clone(a).gate["A"])):
+                return selfcheck_failed(ctx, "innate clone misses fields")
+    except common.HarnessError:
+        raise
+    except Exception as e:  # noqa: BLE001
+        selfcheck_failed(ctx, f"innate clone self-check crashed: {type(e).__name__}: {e}")
 
 
 def run_i(ctx):
     model = IModel(ctx.tier)
-    i_selfcheck(model)
+    i_selfcheck(model, ctx)
     depth = 5 if ctx.tier == "quick" else 6
     return explore.explore(model, ctx, depth, max_states=None if ctx.tier == "quick" else 1_500_000, label="I")
 
@@ -1864,6 +2253,11 @@ def run(ctx):
         "+ non-default signal envelope",
         "engine A (innate): 9 inputs, 2 addable patterns, 2 addable validators, advances {60, 960} s, "
         "severity_threshold x inflammation_decay_minutes x option set per root; the second gate is never modified",
+        "engine A canonical key: generic fingerprint of vars() of every gate of the state (recursively; instants "
+        "relative to the virtual clock; objects of the class-level tables as one token) + the reference state. Left "
+        "out, located by behaviour on a probe gate and never by name: containers emptied by clear_audit_log() and "
+        "private int fields that only grow over a probe history that sets, expires and resets all other state (call "
+        "counters); the clone self-check compares the full fingerprint (nothing left out) of original, clone and replay",
         "'alt' option set: silent=False (stdout swallowed), callback installed (answers True), rate_limit=10**9, "
         "inflammation_decay_minutes=0, Signal(source='System', INTERNAL, SATURATING, metadata, trace_id)",
     ]
